@@ -7,6 +7,7 @@
 (* file per blob (BlobPerFile) or one per call.                            *)
 (*                                                                         *)
 (*   bl.bid    blob file id counter                                        *)
+(*   bl.rel    some merge has relocated a blob (witness for coverage only) *)
 (*   bl.bfile  blob file id -> set of <<k, s>> (the blobs it holds)        *)
 (*   bl.ptr    table id -> [<<k, s>> -> blob file id] (pointers of "I"     *)
 (*             entries, keyed by effective seqno)                          *)
@@ -27,7 +28,7 @@ VARIABLE bl
 
 bvars == <<st, A, h, bl>>
 
-BInit == bl = [bid |-> 0, bfile |-> <<>>, ptr |-> <<>>, ver |-> (0 :> [blobs |-> {}, gc |-> <<>>])]
+BInit == bl = [bid |-> 0, rel |-> FALSE, bfile |-> <<>>, ptr |-> <<>>, ver |-> (0 :> [blobs |-> {}, gc |-> <<>>])]
 
 LastOp == h'[Len(h')]
 OldVer == bl.ver[Latest(st).vid]
@@ -76,7 +77,7 @@ BlobNextVal ==
                 ptr2  == bl.ptr @@ [t \in NewTbls |-> [p \in IEntries(st', t) |-> where(p)]]
                 nver  == [blobs |-> OldVer.blobs \cup Range(ids), gc |-> OldVer.gc]
             IN IF nv = Latest(st).vid THEN bl
-               ELSE [bid |-> bl.bid + IdsUsed(files),
+               ELSE [bid |-> bl.bid + IdsUsed(files), rel |-> bl.rel,
                            bfile |-> bf2, ptr |-> ptr2,
                            ver |-> Retain(bl.ver @@ (nv :> nver))]
       [] op.op \in {"compact", "major"} /\ (op.op = "major" \/ op.kind = "merge") ->
@@ -103,6 +104,7 @@ BlobNextVal ==
                 ptr2 == bl.ptr @@ [t \in NewTbls |-> [p \in IEntries(st', t) |-> where(p)]]
                 mb   == MergeBlobs(OldVer.blobs, OldVer.gc, BfFacts, rew, Range(fids), DiffOf(dropped))
             IN [bid |-> bl.bid + Len(files) + (IF rew # {} /\ BlobPerFile THEN 1 ELSE 0),
+                      rel |-> bl.rel \/ moved # {},
                       bfile |-> bf2, ptr |-> ptr2, ver |-> Retain(bl.ver @@ (nv :> mb))]
       [] op.op = "droprange" ->
             IF nv = Latest(st).vid THEN bl
@@ -159,6 +161,9 @@ NoDanglingM ==
 
 \* blob file ids are never handed out twice
 IdsFresh == BigVals = {} \/ \A f \in DOMAIN bl.bfile \cup DOMAIN LatestB.gc : f < bl.bid
+
+\* coverage witness: expected to be VIOLATED (a behaviour with a relocating merge exists)
+NeverRelocates == ~bl.rel
 
 ViewBlob == <<st, A, bl>>
 =============================================================================
